@@ -273,7 +273,7 @@ where
 	wallet.set_parent_key_id(parent_key_id.clone());
 	let key_res = keys::next_available_key(wallet, keychain_mask);
 	wallet.set_parent_key_id(active_parent_key_id);
-	let key_id = key_res.unwrap();
+	let key_id = key_res?;
 	let keychain = wallet.keychain(keychain_mask)?;
 	let key_id_inner = key_id.clone();
 	let amount = slate.amount;
@@ -433,7 +433,9 @@ where
 	let mut total: u64 = coins.iter().map(|c| c.value).sum();
 	let mut amount_with_fee = match amount_includes_fee {
 		true => amount,
-		false => amount + fee,
+		false => amount.checked_add(fee).ok_or_else(|| {
+			Error::GenericError(format!("Transaction amount is too large: {}", amount))
+		})?,
 	};
 
 	if total == 0 {
@@ -462,7 +464,9 @@ where
 		fee = tx_fee(coins.len(), num_outputs, 1);
 		amount_with_fee = match amount_includes_fee {
 			true => amount,
-			false => amount + fee,
+			false => amount.checked_add(fee).ok_or_else(|| {
+				Error::GenericError(format!("Transaction amount is too large: {}", amount))
+			})?,
 		};
 
 		// Here check if we have enough outputs for the amount including fee otherwise
@@ -493,7 +497,9 @@ where
 			total = coins.iter().map(|c| c.value).sum();
 			amount_with_fee = match amount_includes_fee {
 				true => amount,
-				false => amount + fee,
+				false => amount.checked_add(fee).ok_or_else(|| {
+					Error::GenericError(format!("Transaction amount is too large: {}", amount))
+				})?,
 			};
 		}
 	}
@@ -561,6 +567,12 @@ where
 			change, num_change_outputs
 		);
 
+		if num_change_outputs == 0 || change < num_change_outputs as u64 {
+			return Err(Error::GenericError(format!(
+				"Cannot split change of {} into {} change outputs",
+				change, num_change_outputs
+			)));
+		}
 		let part_change = change / num_change_outputs as u64;
 		let remainder_change = change % part_change;
 
@@ -572,7 +584,7 @@ where
 				part_change
 			};
 
-			let change_key = wallet.next_child(keychain_mask).unwrap();
+			let change_key = wallet.next_child(keychain_mask)?;
 
 			change_amounts_derivations.push((change_amount, change_key.clone(), None));
 			parts.push(build::output(change_amount, change_key));
